@@ -202,12 +202,16 @@ def check_klm(ctx, fmt, n, kind, seed, drv, start_ms=None):
     ctx.sample({"fmt": fmt, "kind": kind, "n": n, "select": sw[:12].tolist()})
 
 
-def check_pod(ctx, fmt, n, seed):
-    pb = filegen.PassBuilder(ctx, fmt, n, random.Random(repr((seed, fmt, n))))
+def check_pod(ctx, fmt, n, seed, plat=None):
+    if plat is None:
+        pb = filegen.PassBuilder(ctx, fmt, n, random.Random(repr((seed, fmt, n))))
+    else:
+        # PLATFORM SWEEP: every POD spacecraft (four- and five-channel instruments alike) on a date of its life
+        pb, _ = filegen.platform_pass(ctx, fmt, n, random.Random(repr((seed, fmt, n, plat))), plat)
     r = filegen.make_reader(ctx, fmt, data=pb.tobytes(), name=pb.dsname)
     five = np.array(r.get_calibrated_channels())
     six = np.array(r._get_calibrated_channels_uniform_shape())
-    payload = {"fmt": fmt, "n": n, "seed": seed, "pod": True}
+    payload = {"fmt": fmt, "n": n, "seed": seed, "pod": True, "plat": plat}
     ok = five.shape[-1] == 5 and six.shape[-1] == 6
     if ok:
         ok = np.isnan(six[:, :, 2]).all() and all(
@@ -218,7 +222,7 @@ def check_pod(ctx, fmt, n, seed):
     if not ok:
         ctx.violation("%s: six-slot layout is not [1,2,NaN,3,4,5] of the five POD channels" % fmt, payload, cls="pod-layout")
     for l in range(n):
-        ctx.case((fmt, "pod", seed, l), nontrivial=True, branch="pod")
+        ctx.case((fmt, "pod", seed, l, plat), nontrivial=True, branch="pod" if plat is None else "pod/platform-sweep")
 
 
 def run(ctx):
@@ -249,6 +253,8 @@ def run(ctx):
         check_klm(ctx, "klmGac", 2100, "blocks", ctx.seed * 1000 + k + 41, drv)
     check_pod(ctx, "podGac", 12, ctx.seed)
     check_pod(ctx, "podLac", 6, ctx.seed)
+    for kp in range(len(filegen.PLATFORMS["pod"])):
+        check_pod(ctx, "podGac" if kp % 4 else "podLac", 6, ctx.seed, plat=kp)
     if ctx.thorough:
         for j in range(150):
             check_klm(ctx, "klmGac", 70 + j, kinds[j % len(kinds)], ctx.seed * 1000 + 100 + j, drv)
@@ -281,7 +287,7 @@ def replay(ctx, path):
         return 1
     ctx.driver_ok = False
     if inp.get("pod"):
-        check_pod(ctx, inp["fmt"], inp["n"], inp["seed"])
+        check_pod(ctx, inp["fmt"], inp["n"], inp["seed"], plat=inp.get("plat"))
     else:
         check_klm(ctx, inp["fmt"], inp["n"], inp["kind"], inp["seed"], [], start_ms=inp.get("start_ms"))
     if ctx.input_violations:
